@@ -35,7 +35,8 @@ package api
 // ---- TOTP / HOTP ------------------------------------------------------------
 
 //@ func api.totpGeneration$1(ctx)
-//@   requires ctx != nil && respnbody(ctx) == 0
+//@   requires ctx != nil
+//@   domain respnbody(ctx) == 0
 //@   modifies ctx
 //@   let b = reqbody(ctx)
 //@   let sec = trim(jstr(b, "secret"))
@@ -49,7 +50,8 @@ package api
 //@   ensures[once] respnbody(ctx) == 1
 
 //@ func api.hotpGeneration$1(ctx)
-//@   requires ctx != nil && respnbody(ctx) == 0
+//@   requires ctx != nil
+//@   domain respnbody(ctx) == 0
 //@   modifies ctx
 //@   let b = reqbody(ctx)
 //@   let ok = ispost(ctx) && jok(b, otpGenerateReq) && trim(jstr(b, "secret")) != ""
@@ -62,7 +64,8 @@ package api
 //@   ensures[once] respnbody(ctx) == 1
 
 //@ func api.hotpValidation$1(ctx)
-//@   requires ctx != nil && respnbody(ctx) == 0
+//@   requires ctx != nil
+//@   domain respnbody(ctx) == 0
 //@   modifies ctx
 //@   let b = reqbody(ctx)
 //@   let ok = ispost(ctx) && jok(b, otpValidateReq) && trim(jstr(b, "secret")) != "" && trim(jstr(b, "code")) != ""
@@ -70,7 +73,7 @@ package api
 //@   let c = jnum(b, "counter")
 //@   let d = digitsof(jstr(b, "digits"))
 //@   let a = algoof(jstr(b, "algorithm"))
-//@   requires c + min(s, 10) <= 18446744073709551615
+//@   domain c + min(s, 10) <= 18446744073709551615
 //@   ensures[method] !ispost(ctx) ==> respstatus(ctx) == 405
 //@   ensures[badjson] ispost(ctx) && !jok(b, otpValidateReq) ==> respstatus(ctx) == 400
 //@   ensures[missing] ispost(ctx) && jok(b, otpValidateReq) && !(trim(jstr(b, "secret")) != "" && trim(jstr(b, "code")) != "") ==> respstatus(ctx) == 400
@@ -79,7 +82,8 @@ package api
 //@   ensures[once] respnbody(ctx) == 1
 
 //@ func api.totpValidation$1(ctx)
-//@   requires ctx != nil && respnbody(ctx) == 0
+//@   requires ctx != nil
+//@   domain respnbody(ctx) == 0
 //@   modifies ctx
 //@   let b = reqbody(ctx)
 //@   let sec = trim(jstr(b, "secret"))
@@ -89,7 +93,7 @@ package api
 //@   let n = jnum(b, "timestamp") / p
 //@   let d = digitsof(jstr(b, "digits"))
 //@   let a = algoof(jstr(b, "algorithm"))
-//@   requires jnum(b, "timestamp") < 4611686018427387904 && (jnum(b, "timestamp") > 0 ==> n >= min(s, 10))
+//@   domain jnum(b, "timestamp") < 4611686018427387904 && (jnum(b, "timestamp") > 0 ==> n >= min(s, 10))
 //@   ensures[method] !ispost(ctx) ==> respstatus(ctx) == 405
 //@   ensures[badjson] ispost(ctx) && !jok(b, otpValidateReq) ==> respstatus(ctx) == 400
 //@   ensures[missing] ispost(ctx) && jok(b, otpValidateReq) && !(sec != "" && trim(jstr(b, "code")) != "") ==> respstatus(ctx) == 400
@@ -100,7 +104,8 @@ package api
 // ---- secrets, suites --------------------------------------------------------
 
 //@ func api.generateRandomSecret$1(ctx)
-//@   requires ctx != nil && respnbody(ctx) == 0
+//@   requires ctx != nil
+//@   domain respnbody(ctx) == 0
 //@   modifies ctx
 //@   let a = algoof(reqquery(ctx, "algorithm"))
 //@   ensures[method] !isget(ctx) ==> respstatus(ctx) == 405
@@ -110,14 +115,16 @@ package api
 //@   ensures[once] respnbody(ctx) == 1
 
 //@ func api.listOCRASuites$1(ctx)
-//@   requires ctx != nil && respnbody(ctx) == 0
+//@   requires ctx != nil
+//@   domain respnbody(ctx) == 0
 //@   modifies ctx
 //@   ensures[method] !isget(ctx) ==> respstatus(ctx) == 405
 //@   ensures[ok] isget(ctx) ==> respstatus(ctx) == 200
 //@   ensures[once] respnbody(ctx) == 1
 
 //@ func api.ocraSuiteConfig$1(ctx)
-//@   requires ctx != nil && respnbody(ctx) == 0
+//@   requires ctx != nil
+//@   domain respnbody(ctx) == 0
 //@   modifies ctx
 //@   let b = reqbody(ctx)
 //@   let raw = jstr(b, "raw_suite")
@@ -138,7 +145,8 @@ package api
 //@   ensures[once] respnbody(ctx) == 1
 
 //@ func api.home$1(ctx)
-//@   requires ctx != nil && respnbody(ctx) == 0
+//@   requires ctx != nil
+//@   domain respnbody(ctx) == 0
 //@   modifies ctx
 //@   ensures[method] !isget(ctx) ==> respstatus(ctx) == 405
 //@   ensures[ok] isget(ctx) ==> respstatus(ctx) == 200
